@@ -284,7 +284,22 @@ def verify(contract, repo, tier="quick"):
             res["out_of_reach"] = "case %s: %s" % (case.label, e)
             _run_batteries(res, cases, repo)
             return res
+        except KeyError as e:
+            # an invariant of the contract names a local variable (or heap field) that this version of the function does not have: the
+            # function was reshaped (a renamed local, a restructured loop); the contract cannot be applied as it stands - undecided
+            # here, not a defect of the code and not a crash of the checker; the batteries and the bounded twin still run
+            res["out_of_reach"] = "case %s: the contract refers to %s, which this version of the function does not have (contract out of date for this shape of the code)" % (case.label, e)
+            _run_batteries(res, cases, repo)
+            return res
         except Exception as e:
+            tb = traceback.extract_tb(e.__traceback__)
+            if tb and "/contracts/" in tb[-1].filename:
+                # raised inside a callback of the contract itself (an invariant, a model) while it was applied to this version of the
+                # function: the contract was written for another shape of the code (e.g. a for loop that became a while loop).  Undecided here.
+                res["out_of_reach"] = "case %s: the contract does not fit this shape of the function (%s: %s at %s:%d)" % (
+                    case.label, type(e).__name__, e, os.path.basename(tb[-1].filename), tb[-1].lineno)
+                _run_batteries(res, cases, repo)
+                return res
             res["error"] = "engine failure in case %s: %s\n%s" % (case.label, e, traceback.format_exc())
             return res
         res["n_paths"] += len(paths)
